@@ -43,7 +43,7 @@ func init() {
 		ID:    "C19",
 		Level: "model_checking",
 		Rule: "explicit-state BFS over all histories of Append/Prepend/Replace x {no args, 1, 2 strings, slices with spare capacity, nil slice} and Clear, from 3 initial lists (nil, empty, spare capacity), " +
-			"depth 7 (quick) / 10 (thorough); after every step: All() == []string model, caller backing arrays bit-identical, later caller mutation invisible, printed comments == All() (as a statement's Start decoration and as the Start/X/End decorations of a package-qualified identifier under import management); " +
+			"depth 7 (quick) / 10 (thorough); after every step: All() == []string model, caller backing arrays bit-identical, later caller mutation invisible, slices returned by earlier All() calls keep their contents, printed comments == All() (as a statement's Start decoration and as the Start/X/End decorations of a package-qualified identifier under import management); " +
 			"state key = (contents relabelled by first occurrence, spare capacity); non-trivial = state with >=2 elements",
 		Assumptions: []string{"methods do not inspect string values (relabelling is a sound canonicalisation)"},
 		Units: func(tier string) []string {
@@ -124,6 +124,7 @@ func c19Exec(cs c19Case) (key string, out core.Outcome) {
 		copyOf  []string
 	}
 	var lives []live
+	var snapshots []c19Snap
 	for step, op := range cs.Hist {
 		var pan string
 		if op == c19NOps-1 {
@@ -179,7 +180,18 @@ func c19Exec(cs c19Case) (key string, out core.Outcome) {
 			l.backing[0] = fmt.Sprintf("MUT%d.%d", step, li)
 			_ = append(l.backing[:1], fmt.Sprintf("APP%d.%d", step, li))
 		}
+		// values obtained from All() earlier keep their contents (an ordered list of strings that was
+		// read before does not change because the list is cleared and refilled later)
+		for si, sn := range snapshots {
+			for i := range sn.want {
+				if sn.got[i] != sn.want[i] {
+					return fail("earlier-All-result-overwritten:"+c19Methods0(op), "step %d %s changed the slice All() had returned after step %d: %q, was %q", step, c19OpName(op), sn.step, []string(sn.got), sn.want)
+				}
+			}
+			_ = si
+		}
 		got := d.All()
+		snapshots = append(snapshots, c19Snap{step: step, got: got, want: append([]string{}, got...)})
 		if len(got) != len(model) || (len(model) > 0 && !reflect.DeepEqual([]string(got), model)) {
 			return fail("model-mismatch:"+c19Methods0(op), "after step %d %s: All() = %q, ordered-list model = %q", step, c19OpName(op), got, model)
 		}
@@ -203,6 +215,12 @@ func c19Exec(cs c19Case) (key string, out core.Outcome) {
 		nilness = "n"
 	}
 	return fmt.Sprintf("%s,|cap+%d|%s", strings.Join(parts, ","), cap(d)-len(d), nilness), core.Outcome{OK: true}
+}
+
+type c19Snap struct {
+	step int
+	got  []string
+	want []string
 }
 
 func c19Methods0(op int) string {
